@@ -509,13 +509,22 @@ def agree(run, fx, rule='PLANEROUTE'):
                 desc = 'format 4 segments %s%s' % (bmp, (', format 12 groups %s' % [('%X' % a, '%X' % b) for a, b in smp]) if smp else ', no format 12 subtable')
                 nat = {'graphite2::grzeroalloc': zero_alloc}
                 try:
-                    if t12 is not None:
-                        it = O.Interp(fx, natives=nat)
-                        it.MAX_STEPS = 60000
-                        it.call(f12, None, [O.It(blocks, 0), O.Ptr(t12), fills[12][1], fills[12][2]])
-                    it = O.Interp(fx, natives=nat)
-                    it.MAX_STEPS = 60000
-                    it.call(f4, None, [O.It(blocks, 0), O.Ptr(t4), fills[4][1], fills[4][2]])
+                    # the constructor itself decides whether there is a format 12 subtable to cache and how many blocks to allocate
+                    def zalloc2(it_, f_, e_, obj_, args_):
+                        n_ = it_.rv(args_[0])
+                        return O.It(O.Vec([O.Ptr(None) for _ in range(n_)] if '**' in (e_.get('t') or '').replace(' ', '') else [0] * n_), 0)
+                    natc = {'graphite2::grzeroalloc': zalloc2,
+                            'graphite2::Cmap::Cmap': lambda it_, f_, e_, o_, a_: O.Rec(),
+                            'graphite2::TtfUtil::Tag::Tag': lambda it_, f_, e_, o_, a_: O.Rec(),
+                            'graphite2::Face::Table::Table': lambda it_, f_, e_, o_, a_: O.Rec({'#table': 'cmap'}),
+                            'graphite2::Face::Table::operator const unsigned char *': lambda it_, f_, e_, o_, a_: O.It(O.Vec([0]), 0),
+                            'bmp_subtable': lambda it_, f_, e_, o_, a_: O.Ptr(t4),
+                            'smp_subtable': lambda it_, f_, e_, o_, a_: O.Ptr(t12) if t12 is not None else O.Ptr(None)}
+                    cc = O.Rec({CC + 'm_blocks': O.Ptr(None), CC + 'm_isBmpOnly': True})
+                    it = O.Interp(fx, natives=natc)
+                    it.MAX_STEPS = 150000
+                    it.call(fx.one('graphite2::CachedCmap::CachedCmap'), cc, [O.Rec()])
+                    nat = natc
                     probe = sorted(set(range(0, 9)) | {0xFFF9, 0xFFFA, 0xFFFB, 0xFFFC, 0xFFFD, 0xFFFE, 0xFFFF, 0x10000, 0x10001, 0x10002, 0x10003, 0x10004, 0x10005, 0x10FFFF})
                     for c_ in probe:
                         a_ = O.Interp(fx, natives=nat).call(cop, cc, [c_])
